@@ -77,6 +77,7 @@ def _deg_phases(rng, p_generic=0.35):
 DEG_KINDS_2 = ("bs-theta-zero", "bs-theta-zero", "bs-theta-pi", "bs-theta-2pi", "bs-theta-half", "bs-phase-slots",
                "ps-axis", "u2-diagonal", "u2-diagonal", "u2-antidiagonal", "u2-scalar", "u2-identity", "u2-real",
                "u1-axis", "perm-identity", "perm-swap")
+DEG_CYCLE = sorted(set(DEG_KINDS_2))
 DEG_KINDS_WIDE = ("u3-monomial", "u3-diagonal", "perm-identity-3", "u3-identity")
 
 
@@ -293,7 +294,8 @@ def run_engine(engine, circuit, m, n, masks, reuse=False, order=None, mask_with_
     from perceval.backends import NaiveBackend, SLOSBackend, SLAPBackend, MPSBackend
     from perceval.simulators.stepper import Stepper
     states = all_states(m, n)
-    out = {"amp": {}, "prob": {}, "dist": {}, "allprob": {}, "evolve": {}, "cross": {}}
+    out = {"amp": {}, "prob": {}, "dist": {}, "allprob": {}, "evolve": {}, "cross": {}, "allprob_again": {},
+           "evolve_again": {}, "amp_again": {}}
     if engine == "Stepper":
         if reuse:
             st = _LONG_LIVED.setdefault("Stepper", Stepper(SLOSBackend()))
@@ -340,6 +342,12 @@ def run_engine(engine, circuit, m, n, masks, reuse=False, order=None, mask_with_
         out["allprob"][tuple(s)] = [float(x) for x in b.all_prob()]
         ev = b.evolve()
         out["evolve"][tuple(s)] = {tuple(k): complex(v) for k, v in ev}
+        # the same questions again, after every kind of query has been answered once for this input: an answer
+        # must not depend on what was asked before (a bulk query or evolve() that rescales cached data in place)
+        out["allprob_again"][tuple(s)] = [float(x) for x in b.all_prob()]
+        out["evolve_again"][tuple(s)] = {tuple(k): complex(v) for k, v in b.evolve()}
+        if not masks:
+            out["amp_again"][tuple(s)] = [complex(b.prob_amplitude(pcvl.BasicState(t))) for t in states]
     return out
 
 
@@ -390,26 +398,51 @@ def compare(engine, obs, states, table, masked_rows, masks):
             if len(ap) != len(kept_states) or any(not core.close(a, p) for a, p in zip(ap, kept_prob)):
                 bad.append(("all_prob-order", f"{engine}.all_prob() for input {s} is not the list of probabilities "
                             f"in enumeration order", {"s": s}))
-        if tuple(s) in obs["evolve"]:
-            ev = obs["evolve"][tuple(s)]
+        if tuple(s) in obs["allprob_again"]:
+            ap = obs["allprob_again"][tuple(s)]
+            if len(ap) != len(kept_states) or any(not core.close(a, p) for a, p in zip(ap, kept_prob)):
+                bad.append(("all_prob-second-query", f"{engine}.all_prob() for input {s}, asked again after "
+                            f"prob_distribution()/evolve() on the same object, is not the list of probabilities "
+                            f"(first differing entry: {next(((list(t), a, p) for t, a, p in zip(kept_states, ap, kept_prob) if not core.close(a, p)), None)})",
+                            {"s": s}))
+        if tuple(s) in obs["amp_again"]:
+            for j, t in enumerate(states):
+                if not core.close(obs["amp_again"][tuple(s)][j], exp_amp[j]):
+                    bad.append(("amplitude-second-query", f"{engine}.prob_amplitude({t}) for input {s}, asked again "
+                                f"after the bulk queries and evolve() on the same object = "
+                                f"{obs['amp_again'][tuple(s)][j]:.6g}, boson-sampling amplitude {exp_amp[j]:.6g}",
+                                {"s": s, "t": t}))
+                    break
+        for which in ("evolve", "evolve_again"):
+            if tuple(s) not in obs[which]:
+                continue
+            ev = obs[which][tuple(s)]
+            label = "evolve" if which == "evolve" else "evolve-second-query"
             # a StateVector is a normalised object: with a mask the kept amplitudes are renormalised
             # model: kept amplitudes / sqrt(keptMass) (evolve_mask_restrict, evolveProbs_eq, evolve_normalised)
             norm = math.sqrt(kept_mass) or 1.0
+            # the container's cut-off acts on the UN-normalised components (|amplitude| < 1e-6 is dropped), the
+            # division by sqrt(kept mass) comes after: the absolute tolerance scales with 1/sqrt(kept mass).  When
+            # the mask keeps (numerically) nothing - kept mass below 1e-8, e.g. an exactly vanishing amplitude that
+            # is 1e-16 in floating point - the normalised vector is not defined and nothing is compared.
+            atol = EVOLVE_ATOL / norm
             for (t, a), p2 in zip(zip(kept_states, [x / norm for x in kept_amp]), ev_prob):
-                if kept_mass > 1e-9 and abs(abs(ev.get(tuple(t), 0j)) ** 2 - p2) > 2 * EVOLVE_ATOL:
-                    bad.append(("evolve", f"{engine}.evolve() |amplitude|^2 of {list(t)} for input {s} = "
+                if kept_mass < 1e-8:
+                    break
+                if abs(abs(ev.get(tuple(t), 0j)) ** 2 - p2) > 2 * atol:
+                    bad.append((label, f"{engine}.evolve() |amplitude|^2 of {list(t)} for input {s} = "
                                 f"{abs(ev.get(tuple(t), 0j)) ** 2:.6g}, expected probability/kept mass {p2:.6g}",
                                 {"s": s, "t": list(t)}))
                     break
                 # a StateVector drops components below its own cut-off (1e-6) and renormalises, and the
                 # step-by-step simulator does so after every component: absolute tolerance EVOLVE_ATOL
-                if not (core.close(ev.get(tuple(t), 0j), a) or abs(ev.get(tuple(t), 0j) - a) <= EVOLVE_ATOL):
-                    bad.append(("evolve", f"{engine}.evolve() amplitude of {list(t)} for input {s} = "
+                if not (core.close(ev.get(tuple(t), 0j), a) or abs(ev.get(tuple(t), 0j) - a) <= atol):
+                    bad.append((label, f"{engine}.evolve() amplitude of {list(t)} for input {s} = "
                                 f"{ev.get(tuple(t), 0j):.6g}, expected {a:.6g}", {"s": s, "t": list(t)}))
                     break
             extra = [k for k in ev if k not in set(map(tuple, kept_states)) and abs(ev[k]) > 1e-12]
             if extra:
-                bad.append(("evolve-keys", f"{engine}.evolve() has components outside the space: {extra[:3]}",
+                bad.append((label + "-keys", f"{engine}.evolve() has components outside the space: {extra[:3]}",
                             {"s": s}))
     return bad
 
@@ -730,7 +763,12 @@ def run(chk: core.Check):
                 "Stepper is driven component by component (Stepper.apply / PERM.apply) and every intermediate state "
                 "vector is compared with the model's restricted-mode propagation (proved equal to the amplitudes of "
                 "the partial circuit); (c) evolve() under a mask is compared with kept amplitudes / sqrt(kept mass) "
-                "with the kept mass computed by the model")
+                "with the kept mass computed by the model; (d) degenerate values: circuits whose components take exact "
+                "multiples of pi/2 in every slot (BS theta = 0, pi, 2pi, 3pi, pi/2 in three conventions, PS), exactly "
+                "diagonal / anti-diagonal / scalar / identity / real 2-mode Unitary blocks, monomial 3-mode blocks, "
+                "identity and swap PERMs - every kind in every run - with an exactly diagonal non-scalar block between "
+                "two mixing components, for every engine and query, fresh and long-lived, tensors and step by step; "
+                "(e) every query is asked a second time on the same object after all kinds of queries were served")
     chk.assumptions = ["the circuit's matrix is the one compute_unitary() reports (C01/C14 cover it)",
                        "StateVector results (evolve) are compared with absolute tolerance 5e-6: the container drops "
                        "components below 1e-6 and renormalises (after every component in the step-by-step simulator); "
@@ -751,7 +789,10 @@ def run(chk: core.Check):
     sizes = chk.pick([(2, 2), (2, 3), (3, 2), (3, 3), (4, 2), (4, 3), (3, 1), (3, 0)],
                      [(2, 2), (2, 4), (3, 2), (3, 3), (3, 5), (4, 2), (4, 3), (4, 4), (5, 2), (5, 3), (6, 2), (3, 1), (4, 0)])
     for spec_case in load_corpus():
-        handle(chk, spec_case["spec"], spec_case["n"], spec_case["engine"], spec_case.get("masks") or [])
+        # (corpus cases never credit the required-branch counters: those measure the generator)
+        for engine in spec_case.get("engines") or [spec_case["engine"]]:
+            handle(chk, spec_case["spec"], spec_case["n"], engine,
+                   [] if engine == "Stepper" else (spec_case.get("masks") or []))
     for i in range(n_circ):
         m, n = sizes[i % len(sizes)]
         for engine in ENGINES:
@@ -772,16 +813,31 @@ def run(chk: core.Check):
     # even rounds; on odd rounds the four engines that accept wider blocks get monomial 3-mode blocks as well
     deg_sizes = chk.pick([(2, 2), (3, 2), (3, 3), (4, 2), (2, 3), (3, 1), (3, 2), (4, 2)],
                          [(2, 2), (3, 2), (3, 3), (4, 2), (2, 4), (3, 1), (4, 3), (5, 2), (3, 4), (4, 2), (3, 3), (5, 3)])
+    deg_offset = rng.randrange(len(DEG_CYCLE))
     for i in range(chk.pick(8, 24)):
         m, n = deg_sizes[i % len(deg_sizes)]
         shape = ("between", "between", "mixed", "all")[i % 4]
         forced = {0: "bs-theta-zero", 1: "u2-diagonal"}.get(i % 4)
         spec2, kinds2 = gen_degenerate_case(rng, m, True, shape, forced)
         specw, kindsw = gen_degenerate_case(rng, m, False, shape, forced) if i % 2 else (spec2, kinds2)
+        # every degenerate kind occurs in every run, whatever the seed: two kinds of the cycle are added to each case
+        for spec_, kinds_ in ((spec2, kinds2),) + (((specw, kindsw),) if specw is not spec2 else ()):
+            for j in (2 * i, 2 * i + 1):
+                kind = DEG_CYCLE[(deg_offset + j) % len(DEG_CYCLE)]
+                leaf, _ = gen_degenerate_leaf(rng, m, True, kind=kind)
+                pos = rng.choice([0, len(spec_["comps"])]) if shape == "between" else rng.randint(0, len(spec_["comps"]))
+                spec_["comps"].insert(pos, [rng.randint(0, m - gens.leaf_width(leaf)), leaf])
+                kinds_.append(kind)
         for engine in ENGINES:
             spec, kinds = (spec2, kinds2) if engine == "MPS" else (specw, kindsw)
             masks = [] if (engine == "Stepper" or n == 0 or rng.random() < 0.6) else gen_masks(rng, m, n)
-            handle(chk, spec, n, engine, masks, degenerate=kinds)
+            order = None
+            if engine == "Stepper":
+                # Stepper.apply recomputes describe() of the component (a sympy search per parameter) for every
+                # component and every input: a sample of the inputs, bunched ones first, keeps the run short
+                sts = sorted(all_states(m, n), key=lambda s_: (-max(s_), rng.random()))
+                order = sts[:2] + rng.sample(sts[2:], min(len(sts) - 2, chk.pick(2, 6))) if len(sts) > 4 else None
+            handle(chk, spec, n, engine, masks, degenerate=kinds, order=order)
     # one-mode circuits (m = 1 is inside the quantifier): every engine, bunched inputs only
     for n in chk.pick((1, 3), (0, 1, 2, 3, 5)):
         for engine in ENGINES:
